@@ -70,11 +70,15 @@ def builtin_table(name):
     return _TABLES[name]
 
 _ENC = {}
-def get_encoder(table, prot, pol):
-    key = (table, prot, pol)
+def get_encoder(table, prot, pol, warn=False):
+    """warn=True: the warning flag left at its default (the warning is logged to a NullHandler; building its text is
+    part of the call and must not make the call fail)"""
+    key = (table, prot, pol, warn)
     if key not in _ENC:
         from pylatexenc import latexencode as le
-        kw = dict(conversion_rules=[table], unknown_char_warning=False, latex_string_class=ChunkList)
+        kw = dict(conversion_rules=[table], latex_string_class=ChunkList)
+        if not warn:
+            kw['unknown_char_warning'] = False
         if prot != 'default':
             kw['replacement_latex_protection'] = prot
         if pol != 'default':
@@ -189,7 +193,7 @@ def run_impl(c):
     eprot = 'braces' if c['prot'] == 'default' else c['prot']
     epol = 'keep' if c['pol'] == 'default' else c['pol']
     unmatched = [ch for ch in sn if ord(ch) not in table and not passes_through(ch)]
-    enc = get_encoder(c['table'], c['prot'], c['pol'])
+    enc = get_encoder(c['table'], c['prot'], c['pol'], warn=(sum(map(ord, c['s'])) % 2 == 1))
     try:
         res = enc.unicode_to_latex(s); exc = None
     except Exception as e:          # every exception class is an observable here
